@@ -1,6 +1,8 @@
 ---------------------------- MODULE AutomataTrace ---------------------------
 (* C10 on recorded runs of library machines wrapped in dfa(limit = L): one NDJSON line per run                         *)
-(*   {"L": limit, "len": octets of the message, "sent": reported consumed, "actual": symbols really taken, "ok": completed terminal} *)
+(*   {"L": limit, "len": octets of the message, "sent": reported consumed, "actual": symbols really taken, "ok": completed terminal, *)
+(*    "delim": the message is delimited by its own length fields (fixed size, string / path / item / frame lengths)}                 *)
+(* The message is always followed by further octets (which belong to the enclosing grammar).                                        *)
 EXTENDS Naturals, Sequences, TLC, Json, IOUtils
 Traces == ndJsonDeserialize(IOEnv.TRACE_FILE)
 VARIABLE t
@@ -9,6 +11,9 @@ TNext == FALSE /\ UNCHANGED t
 X == Traces[t]
 LimitRespected == X.ok => X.sent <= X.L                      \* never completes successfully beyond the limit
 SentAccounting == X.sent = X.actual                          \* reported = actually taken (push-backs, chained blocks)
-Why == IF ~LimitRespected THEN "limit-exceeded" ELSE IF ~SentAccounting THEN "sent-accounting" ELSE "ok"
+\* a limit that is a length field parsed earlier in the same message: the following octets are left to the enclosing grammar
+InnerLimits == (X.ok /\ X.delim) => X.sent <= X.len
+Why == IF ~LimitRespected THEN "limit-exceeded" ELSE IF ~SentAccounting THEN "sent-accounting"
+       ELSE IF ~InnerLimits THEN "consumed-beyond-its-own-length-fields" ELSE "ok"
 Verdict == Why = "ok" \/ PrintT(ToJson([tid |-> t, why |-> Why]))
 =============================================================================
